@@ -32,13 +32,13 @@ Reproduce one: `git -C /repo worktree add --detach /var/tmp/w HEAD && git -C /va
 /verif/seeded/<id>/patch.diff && /verif/tools/try_mutant.sh <property> /var/tmp/w quick;
 git -C /repo worktree remove --force /var/tmp/w`.
 
-Rounds A to D were written by independent sub-agents (one per property and round), each given
+Rounds A to E were written by independent sub-agents (one per property and round), each given
 only the property's text (later rounds also the mechanisms already used in earlier rounds) and its own
 scratch worktree — nothing of `/verif`. Each agent delivered `patch.diff`, a demonstration
 (`zz_seeded_demo_test.go`, failing with the change and passing without) and `NOTES.md`; each was
 re-confirmed with `tools/confirm_seeded.sh` before it was kept.
 """)
-for title, prefix in (("Round A (agents, one per property)", "A-"), ("Round B (agents, different mechanism)", "B-"), ("Round C (agents, a third mechanism)", "C-"), ("Round D (agents, a fourth mechanism)", "D-")):
+for title, prefix in (("Round A (agents, one per property)", "A-"), ("Round B (agents, different mechanism)", "B-"), ("Round C (agents, a third mechanism)", "C-"), ("Round D (agents, a fourth mechanism)", "D-"), ("Round E (agents, 12 properties, a fifth mechanism)", "E-")):
     rows = load(prefix)
     caught = sum(1 for _, m in rows if m.get("result", "").startswith("caught as delivered"))
     L.append("## %s — %d changes, %d caught by the quick tier as delivered, %d after strengthening the check\n" % (title, len(rows), caught, len(rows) - caught))
